@@ -23,7 +23,7 @@ Lemma dr_broker_feed : forall w a, w_drained (broker_feed w a) = w_drained w.
 Proof. intros. unfold broker_feed. dr. Qed.
 
 Lemma dr_io_write : forall bs w, w_drained (fst (io_write bs w)) = w_drained w.
-Proof. intros. unfold io_write, next_ev. dr; rewrite dr_broker_feed; reflexivity. Qed.
+Proof. intros. unfold io_write, next_ev, slow_write. dr; rewrite dr_broker_feed; reflexivity. Qed.
 
 Lemma dr_io_flush : forall w, w_drained (fst (io_flush w)) = w_drained w.
 Proof. intros. unfold io_flush, next_ev. dr. Qed.
